@@ -5,3 +5,16 @@ claim("C16", "exploration", "exhaustive enumeration + Hypothesis vs reference fo
       "Exhaustive over every height with a non-zero subsidy (0..33.6M) and every era boundary up to 2^32/2^64: subsidy equals the documented formula, never increases, sums to exactly the documented maximum, which equals the validator's amount limit. The domain is finite and small, so enumeration is complete for it.",
       "Trusted: the reference formula (one line, from docs/params.md), Python integer arithmetic.",
       "DESIGN.md 4/C16")
+
+claim("C01", "exploration", "Hypothesis-generated histories + single-rule mutation catalogue vs independent reference validator; state digest",
+      "Generated chain histories (forks, reorganisations, spends) with adversarial candidate blocks, each breaking exactly one spending rule, offered to CoinState.add_block on any stored parent; acceptance implies the independent reference validator (own encoder, own ledger, ecdsa verification under the referenced output's key over the blanked transaction) accepts; a digest of the whole receiver state is unchanged by every attempt; the resulting unspent map equals the reference map. Exploration: held on the thousands of candidates generated per run; sensitivity shown on mutants M01a-e.",
+      "Trusted: reference validator (vf/refmodel.py), ecdsa verifier, test configuration (sha256 stand-in for scrypt, checkpoints off, short retarget periods).",
+      "DESIGN.md 4/C01")
+claim("C02", "exploration", "Hypothesis-generated histories + value mutations vs reference ledger; supply invariant; range function vs spec",
+      "Generated histories with reward/value mutations (reward +1/+k, zero/over-limit/overflowing outputs, outputs > inputs) and boundary fees; acceptance implies the reference value clauses with fees taken against the parent's reference state; after every accepted block the code's own unspent map sums to at most parent + subsidy, equals the reference sum and stays below the cumulative schedule; validate_sashimi_range accepts exactly 1..MAX on a boundary-heavy integer strategy.",
+      "Trusted: reference ledger and subsidy formula, test configuration.",
+      "DESIGN.md 4/C02")
+claim("C05", "exploration", "Hypothesis: arithmetic vs reference, header-mutation histories (patched and REAL retarget period on fabricated deep states), differential evidence, assembly completeness",
+      "Four generated sub-checks: exact retarget arithmetic and the id<target comparison against reference formulas; histories with exactly one header rule broken (target, height, reward height, time, future limit, PoW, each evidence field, parent, merkle) under short periods and on fabricated deep states with the real 10,080-block period straddled by forks; the code's PoW evidence and chain sampling against an independent implementation incl. wrap-around; every block produced by the node's own assembly on generated chains (forks, boundaries, pools) passes the reference clauses and add_block.",
+      "Trusted: reference formulas, fabricated deep states (filler ancestors not linked), sha256 stand-in for scrypt via the same code path.",
+      "DESIGN.md 4/C05")
